@@ -27,6 +27,11 @@ UP_DEALLOC = r"^babylon::PageAllocator::deallocate$"
 POOL = re.compile(r"^babylon::ObjectPool<.*>(?<!::Deleter)$")
 
 
+DEPENDS = {
+    "C01": "free pages and pooled objects are kept in a ConcurrentBoundedQueue",
+    "C02": "a blocking pool pop sleeps in the queue's pop",
+}
+
 def units(tier):
     return [lib("reusable/page_allocator.cpp"), driver("object_pool.cc")]
 
